@@ -125,6 +125,14 @@ NEEDS = {
     'S9-C15': "two edits: cellvolume becomes a cached_property + convectionTvdRHSSpherical1D normalises it in place; repeated TVD assembly on SphericalGrid1D",
     'S9-C16': "two edits: the periodic setter stores the value as given + the Spherical3D row builder tests `is not True`; a radial face flagged periodic with a truthy non-bool (numpy bool, 1)",
     'S9-C17': "two edits: cell_size_array returns arc lengths on theta axes + convectionTvdRHSPolar2D takes its sizes from it (divides by r_p twice); PolarGrid2D, TVD term, azimuthal velocity",
+    'S10-C01': "convectionTvdRHSSpherical3D: the back-face term of the phi-divergence uses the front-face window; SphericalGrid3D, TVD correction, negative azimuthal velocity",
+    'S10-C03': "boundaryConditionsTerm dispatches with an isinstance chain that tests Grid3D before its subclass SphericalGrid3D (spherical meshes get Cartesian boundary rows); SphericalGrid3D with Neumann/Robin data on an angular face",
+    'S10-C05': "convectionTermSpherical1D rewritten with pre-computed face weights that are swapped (own size instead of the neighbour's); SphericalGrid1D, central convection, non-uniform radial spacing",
+    'S10-C08': "_facelocation_to_cellsize written with np.pad(.., mode='reflect') (ghost sizes repeat the second cell, not the adjacent one); 2-D/3-D classes from face positions with unequal end cells and a Dirichlet/Robin face",
+    'S10-C10': "_mesh_3d_param routes equispaced face arrays through the (N, L) form with an origin, the third-axis centres get the second axis's origin; 3-D class, equispaced faces, y0 != z0",
+    'S10-C11': "arithmeticMean refactored through a helper; the third component of the 3-D branch passes the widths in linearMean's order (neighbour's width); 3-D classes, non-uniform third axis",
+    'S10-C14': "CellVariable.__mul__/__rmul__ fast path for scalars scales the stored array including ghost cells (ghosts are affine, not linear, in the interior); scalar operand != 1 and an inhomogeneous boundary condition",
+    'S10-C16': "BoundaryFace.__init__ delegates its type check to TrackedArray(x, strict=True), which duck-types on `ndim`; numpy scalars (np.float64, arr[0], arr.sum()) as coefficients no longer raise TypeError",
     'S2-C16': "assigning FaceVariable.yvalue on CylindricalGrid2D / PolarGrid2D / 3-D curvilinear grids (subclasses of Grid2D/Grid3D) where the label is not documented",
 }
 
@@ -189,6 +197,8 @@ BEFORE = {
     'S9-C14': "no check reported it (deep_copy ignored a user-defined __deepcopy__); __deepcopy__ / copy.copy / setattr modelled, reported by C14.O4",
     'S9-C15': "exit 2 (functools.cached_property unmodelled); modelled, reported by C15.Z6",
     'S9-C16': "C16 silent (L3 switched the flag on with True only); L3 also uses a truthy non-bool through the public setter",
+    'S10-C10': "exit 2 in every check that builds a 3-D mesh (bool() of a tolerance predicate was not modelled); bool(np.allclose(..)) forks per job path like `if np.allclose(..)`, reported by C10.G1",
+    'S10-C16': "exit 2 in C16 (the model of TrackedArray(..) accepted exactly one positional argument and never ran the class's own __new__); __new__ is interpreted now and only `np.asarray(x).view(cls)` is a modelled library step, reported by C16.L6",
     'S4-C02': "reported by C05 / C07 / C15 only until round 9; C02 re-decides the purity rules C15.Z1 / Z6 (lemma group PURITY) now",
     'S4-C07': "reported by C04.S8 / C09.P1 only until round 6; C07 re-decides the protocol lemmas now",
     'S5-C01': "reported by C03.B3 / C07.M3 / C08.A1 only until round 9; C01 re-decides C03.B3 (lemma group PERIODIC) now",
@@ -214,7 +224,7 @@ def main():
         meta = {
             'id': d,
             'breaks_property': prop,
-            'origin': 'independent sub-agent given only the property text and a scratch worktree' + (' (second round)' if d.startswith('S2') else ' (third round)' if d.startswith('S3') else ' (fourth round)' if d.startswith('S4') else ' (fifth round)' if d.startswith('S5') else ' (sixth round)' if d.startswith('S6') else ' (seventh round, with a focus area per property)' if d.startswith('S7') else ' (eighth round: triggers that are special values, sizes or types)' if d.startswith('S8') else ' (ninth round: two cooperating edits, each harmless alone)' if d.startswith('S9') else ''),
+            'origin': 'independent sub-agent given only the property text and a scratch worktree' + (' (second round)' if d.startswith('S2') else ' (third round)' if d.startswith('S3') else ' (fourth round)' if d.startswith('S4') else ' (fifth round)' if d.startswith('S5') else ' (sixth round)' if d.startswith('S6') else ' (seventh round, with a focus area per property)' if d.startswith('S7') else ' (eighth round: triggers that are special values, sizes or types)' if d.startswith('S8') else ' (ninth round: two cooperating edits, each harmless alone)' if d.startswith('S9') else ' (tenth round: functions no earlier seed had touched)' if d.startswith('S10') else ''),
             'files_changed': files,
             'needs_to_manifest': NEEDS.get(d) or old.get('needs_to_manifest', ''),
             'confirmed_by_me': {
@@ -224,7 +234,7 @@ def main():
                 'demo_exit_without_change': ver.get('demo_without_change_exit'),
                 'confirmed': ver.get('confirmed'),
             },
-            'checks_run': ('tools/try_patch.py: scratch copy of /repo/src + docs with patch.diff applied, PV_REPO pointed at it, every ./check CNN --tier quick' if d[:2] in ('S6', 'S7', 'S8', 'S9') else 'tools/try_seed.py checks: git -C /repo apply patch.diff; every ./check CNN --tier quick; git -C /repo checkout -- .'),
+            'checks_run': ('tools/try_patch.py: scratch copy of /repo/src + docs with patch.diff applied, PV_REPO pointed at it, every ./check CNN --tier quick' if (d[:2] in ('S6', 'S7', 'S8', 'S9') or d.startswith('S10')) else 'tools/try_seed.py checks: git -C /repo apply patch.diff; every ./check CNN --tier quick; git -C /repo checkout -- .'),
             'caught_by': caught,
             'analysis_errors': {k: r['errors'][:1] for k, r in sorted(chk.items()) if r['exit'] == 2},
             'silent': [k for k, r in sorted(chk.items()) if r['exit'] == 0],
